@@ -21,7 +21,7 @@ func init() {
 	})
 	register(&PropRules{
 		ID:      "C09",
-		Explain: "Program-side necessary conditions of durability: (C09.1) the temp file is fsynced, with the error checked, before the rename that makes it visible; (C09.2) for every rename/unlink/creating-open of a user file, every path from it to a success exit of the operation passes Sync() on a handle of the base directory (directly or through a helper that does so on all its success paths).",
+		Explain: "Program-side necessary conditions of durability: (C09.1) the temp file is fsynced, with the error checked, before the rename that makes it visible; (C09.2) for every rename/unlink/creating-open of a user file, every path from it to a success exit of the operation passes Sync() on a handle of the base directory (directly or through a helper that does so on all its success paths); (C09.3) a directory created on the path of such an operation has its entry flushed too: a plain Mkdir is followed on every success exit by an fsync of the holding directory, a recursive MkdirAll (an unknown number of entries in different parents) is not allowed at all — except for the scratch directory <base>/.tmp below a base directory known to exist, whose loss loses nothing acknowledged.",
 		Undec:   []string{"the file system honouring the persistence model", "enumeration of post-crash states", "for Remove, whose API has no error result, a failing directory fsync cannot be reported"},
 		Run:     runC09,
 		Floors:  map[string]int{"C09.1": 1, "C09.2": 4},
@@ -423,6 +423,81 @@ func runC09(c *an.Ctx, p *an.Prog, thorough bool) {
 	x := newFsx(p)
 	c082(c, p, x, "C09")
 	c092(c, p, x)
+	c093(c, p, x)
+}
+
+// c093: directories created on the way to an acknowledged change. A directory entry is durable only after an fsync of
+// the directory that holds it, so a directory that init/add/update/set-admin/remove creates before it reports success
+// must have its entry flushed like any other: a plain Mkdir(P) followed, on every success exit, by an fsync of the
+// directory holding P. A recursive MkdirAll creates an unknown number of levels, each in a different parent — no
+// fsync the caller can name covers them — so it is a violation by itself. The one exception is the scratch directory
+// <base>/.tmp created below a base directory that is known to exist (C03.5's condition): then the call creates at most
+// the single entry ".tmp", and losing that entry loses nothing that was acknowledged — the record reaches its final
+// name by a rename into <base> (made durable by C09.1/C09.2), no acknowledged state refers to .tmp or its content, and
+// every later operation creates .tmp again when it is missing. Without the known-to-exist condition the exception does
+// not apply: the same call would then also create <base> itself, whose entry is what holds every record.
+func c093(c *an.Ctx, p *an.Prog, x *fsx) {
+	sites := dirCreateSites(c, p, x)
+	memo := map[*ssa.Function]int{}
+	n := 0
+	for _, st := range sites {
+		if !st.Concerned {
+			continue
+		}
+		n++
+		pos := p.InstrPos(st.In)
+		what := st.Name + "(" + joinS(shapeStrings(st.Shapes)) + ")"
+		if len(st.Undec) > 0 {
+			c.Undecided("C09.3", st.Key, pos, what+": "+strings.Join(uniqS(st.Undec), "; "))
+			continue
+		}
+		if st.Scratch && (!st.Recursive || len(st.NoBase) == 0) {
+			c.OK("C09.3", st.Key, pos, what+": creates at most the scratch entry .tmp (an entry of it) below an existing base directory; its loss loses no acknowledged change")
+			continue
+		}
+		if st.Recursive {
+			why := "a recursive MkdirAll on the path of an acknowledged operation creates directory entries (the directory and every missing ancestor) that are never fsynced in their parent directories: after a power loss the directory, and every record acknowledged in it, may be gone"
+			if st.Scratch {
+				why += " — the scratch-directory exception does not apply because the base directory is not known to exist: " + strings.Join(uniqS(st.NoBase), "; ")
+			}
+			c.Fail("C09.3", st.Key, pos, what+": "+why)
+			continue
+		}
+		// plain Mkdir / MkdirTemp: the holding directory must be fsynced on every success exit after it
+		var bad []string
+		nsucc := 0
+		for _, root := range an.InlineRoots(st.Fn) {
+			er := an.EnumPaths(root, nil, nil, func(s *an.PathState) {
+				evs := expandedEvents(s)
+				idx := indexOfInstr(evs, st.In)
+				if idx < 0 {
+					return
+				}
+				if ct := evs[idx].Res; ct != nil && callErrNonNil(s, ct) {
+					return
+				}
+				if k, _ := exitKind(s); k == "error" || k == "panic" {
+					return
+				}
+				nsucc++
+				if len(evs[idx].Args) == 0 || !x.holderSynced(p, s, evs, idx, evs[idx].Args[0], st.Name == "os.MkdirTemp", memo) {
+					bad = append(bad, "success exit reached without fsync of the directory that holds the new entry: "+pathDesc(s))
+				}
+			})
+			c.Stats["cfg_paths_enumerated"] += er.Paths
+			if !er.Complete {
+				bad = append(bad, "path limit")
+			}
+		}
+		msg := strings.Join(bad, "; ")
+		if len(bad) > 2 {
+			msg = strings.Join(bad[:2], "; ") + fmt.Sprintf("; … (%d paths)", len(bad))
+		}
+		c.Check(len(bad) == 0, "C09.3", st.Key, pos, fmt.Sprintf("%s: all %d success paths after it fsync the directory holding the new entry", what, nsucc), what+": "+msg)
+	}
+	if n == 0 {
+		c.OK("C09.3", "no-directory-creation", "-", "no directory-creating primitive on the path of a durable operation")
+	}
 }
 
 // syncsBaseSummary: does module function h, on all its success paths, Sync() a handle of the directory
